@@ -101,7 +101,7 @@ func (c18) Gen(r *Rng, tier string, run int) *Trace {
 				}
 				g.emit(op, false)
 			case 5:
-				g.emit(Op{Obj: c1, M: r.PickStr("SetID", "SetCategory"), Args: []Val{vStr(r.PickStr("", "x", "id 2", "Ünï"))}}, false)
+				g.emit(Op{Obj: c1, M: r.PickStr("SetID", "SetCategory"), Args: []Val{vStr(r.PickStr("", "x", "id 2", "Ünï", " lead", "trail "))}}, false)
 			case 6:
 				op := Op{Obj: c1, M: "SetLogLevel"}
 				for k := r.Range(1, 3); k > 0; k-- {
@@ -125,7 +125,7 @@ func (c18) Gen(r *Rng, tier string, run int) *Trace {
 		case 6:
 			g.emit(Op{Obj: s0, M: "SetFIFO", Args: []Val{vBool(r.Bool(0.5))}}, false)
 		case 7:
-			g.emit(Op{Obj: s0, M: r.PickStr("SetID", "SetCategory"), Args: []Val{vStr(r.PickStr("", "x", "id 2", "Ünï", "AND", "x_random", "_addrx", "random", "_Random_"))}}, false)
+			g.emit(Op{Obj: s0, M: r.PickStr("SetID", "SetCategory"), Args: []Val{vStr(r.PickStr("", "x", "id 2", "Ünï", "AND", "x_random", "_addrx", "random", "_Random_", " lead", "trail ", "\ttab\t", " "))}}, false)
 		case 8:
 			d := []Val{vStr(","), vStr("|"), vStr(""), {K: "rune", I: ';'}, {K: "rune", I: 0}, vNil(), vStr(", "), {K: "rune", I: 9}, {K: "rune", I: 31}, {K: "rune", I: 0x263a}, vStr("\t")}[r.Intn(11)]
 			g.emit(Op{Obj: s0, M: "SetDelimiter", Args: []Val{d}}, false)
